@@ -437,12 +437,12 @@ Print Assumptions C19_check_iff_gen.
 (* ------------------------------------------------------------------ C12 *)
 Theorem C12_check_field_sound : forall lit fields f,
   check_field lit fields = CfOk f ->
-  In f fields /\ quote (sf_name f) = lit /\ is_prevented (sf_tag f) = false.
+  In f fields /\ quote (sf_name f) = lit /\ is_prevented (sf_tag f) = false /\ is_blank f = false.
 Proof. exact check_field_sound. Qed.
 Print Assumptions C12_check_field_sound.
 
 Theorem C12_star_selects_unprevented : forall fields f,
-  In f (star_fields fields) <-> In f fields /\ is_prevented (sf_tag f) = false.
+  In f (star_fields fields) <-> In f fields /\ is_prevented (sf_tag f) = false /\ is_blank f = false.
 Proof. exact star_fields_spec. Qed.
 Print Assumptions C12_star_selects_unprevented.
 
